@@ -192,6 +192,10 @@ def run_one(ck, case, reqs, pending):
                 and sorted(canon_path(p) for p in snap1["e"].values()) == sorted(canon_path(p) for p in snap2["e"].values()))
         if not same:
             sig = "second-pass-merges-new-two-point-border-interfaces" if (replace and ncand2 > 0) else None
+            if sig is None and replace and chain:
+                # the first pass itself merged a chain (finding D17): it may leave two mesh edges joining the same pair, which the
+                # second pass rebuilds as one
+                sig = "merge-chain-of-two-point-border-interfaces"
             ck.fail("resampling an already resampled mesh changes nothing", "second pass differs", case, signature=sig)
         v2, e2, c2 = v3, e3, c3
     except Exception as ex:
